@@ -20,6 +20,7 @@ type inObs struct {
 
 // runHistory feeds the inputs one by one to repl.EvalOne on ONE persistent state.
 func runHistory(inputs []string, opt RunOpt) ([]inObs, *eval.State) {
+	markCurrent(crashMark{Inputs: inputs, Opt: opt})
 	s, buf := newState(opt)
 	var res []inObs
 	for _, in := range inputs {
